@@ -185,7 +185,7 @@ func c11Build(sc c11Scenario, implicit bool) (files map[string]string, configFil
 		} else {
 			e := map[string]any{"path": "e.env"}
 			if sc.NullRes {
-				e["format"] = "raw" // a sibling attribute of the defaulted one
+				e["format"] = "c11raw" // a sibling attribute of the defaulted one
 			}
 			val(e, "required", "env_file.required")
 			at("env_file")["env_file"] = []any{e}
@@ -739,7 +739,7 @@ func c11RandomScenario(r *rand.Rand) c11Scenario {
 
 func init() {
 	// compose-go ships no env_file format parser; register a trivial one so that `format:` can sit next to `required:`
-	dotenv.RegisterFormat("raw", func(r io.Reader, _ string, _ func(string) (string, bool)) (map[string]string, error) {
+	dotenv.RegisterFormat("c11raw", func(r io.Reader, _ string, _ func(string) (string, bool)) (map[string]string, error) {
 		return map[string]string{"K": "v"}, nil // what the default parser reads from the generated e.env
 	})
 	core.Register("c11.meta", &core.CheckDef{
